@@ -332,7 +332,7 @@ func (r Condition) IsEqual(o any) (err error) {
 		// handle condition/condition-alias assertion
 		// and exit immediately if it fails due to a
 		// bad type, or uninitialized input for o.
-		if s, ok := conditionTypeAliasConverter(o); ok {
+		if s, ok := conditionTypeAliasConverter(o); ok && s.IsInit() {
 			if fn := r.condition.cfg.eqf; fn != nil {
 				// use the user-authored closure assertion
 				err = fn(r, o)
@@ -340,6 +340,8 @@ func (r Condition) IsEqual(o any) (err error) {
 				// use default assertion
 				err = r.condition.isEqual(s.condition)
 			}
+		} else {
+			err = errorf("Cannot perform equality assertion; bad input")
 		}
 	}
 
@@ -351,12 +353,17 @@ func (r *condition) isEqual(o *condition) error {
 		return errorf("Condition keyword mismatch")
 	}
 
-	if r.op.String() != o.op.String() {
+	// either operator may be unset (nil)
+	if (r.op == nil) != (o.op == nil) {
 		return errorf("Condition operator mismatch")
-	}
+	} else if r.op != nil {
+		if r.op.String() != o.op.String() {
+			return errorf("Condition operator mismatch")
+		}
 
-	if r.op.Context() != o.op.Context() {
-		return errorf("Condition operator (context) mismatch")
+		if r.op.Context() != o.op.Context() {
+			return errorf("Condition operator (context) mismatch")
+		}
 	}
 
 	iexpr := r.ex
